@@ -154,7 +154,7 @@ func (c Float32) Log1pExp(a ConstScalar) Scalar {
   } else
   if v <= 33.3 {
     c.Neg(a)
-    c.Exp(a)
+    c.Exp(c)
     // the receiver may be the argument, which is overwritten by now
     c.Add(c, ConstFloat64(v))
   } else {
